@@ -1,4 +1,5 @@
 import Goat.Model.Scope
+import Goat.Lemmas.Resolve
 /-!
 # C08 — names resolve by Go's lexical block scoping
 
@@ -1152,6 +1153,47 @@ example :
     (runS {} ops).2 = [some 0, none, some 1, some 2, none, some 3, none, some 4, none] ∧
     (runS {} ops).1.resolve "x" = some 0 ∧ (runS {} ops).1.resolve "y" = none := by decide
 
+/-! ### which table an identifier is looked up in (compiler.go `case "(name)"`, generated order) -/
+
+open Goat.Resolve in
+/-- **local_wins.** With the chain of tests in the order of the source (`Gen.resolveOrder`, regenerated from
+    compiler.go on every run): an identifier bound in the enclosing scopes of the function resolves to that
+    binding whatever package-level names and builtins the table of globals holds - and however they got
+    there (an earlier load, an earlier Eval, a declaration further down the file) - unless the body being
+    compiled declared a type of that name. -/
+theorem local_wins (t : Tab) (c : Ctx) (x : String) (hx : x ≠ "$") (hl : x ∈ c.locals)
+    (ht : Key.ltype c.fn x ∉ t.keys) : resolve t c x = .localGet x :=
+  Goat.Resolve.local_wins t c x hx hl ht
+
+open Goat.Resolve in
+/-- **local_wins_after_any_history.** In the body of a function f that is compiled after ANY history of
+    compilations (of other functions, of earlier bodies of f, of literals that had the same position-made
+    name) and package-level definitions, at a point where the body has declared the types `tys`, a bound
+    identifier that is not one of them is the local. -/
+theorem local_wins_after_any_history (h : List Ev) (hok : ∀ e ∈ h, e.ok) (f : String) (hf : f ≠ "")
+    (tys : List String) (locals : List String) (x : String) (hx : x ≠ "$") (hl : x ∈ locals) (hn : x ∉ tys) :
+    resolve (step (run h) (.compile f tys)) { fn := f, inScope := true, locals := locals } x = .localGet x :=
+  Goat.Resolve.local_wins_after_any_history h hok f hf tys locals x hx hl hn
+
+open Goat.Resolve in
+/-- a package-level name beats a builtin of the same name -/
+theorem package_beats_builtin (t : Tab) (c : Ctx) (x : String) (hx : x ≠ "$") (hl : x ∉ c.locals)
+    (ht : Key.ltype c.fn x ∉ t.keys) (hg : Key.glob x ∈ t.keys) : resolve t c x = .globalGet (.glob x) :=
+  Goat.Resolve.package_beats_builtin t c x hx hl ht hg
+
+open Goat.Resolve in
+/-- a name found nowhere is a forward reference to the package-level name (resolved when the code runs) -/
+theorem forward_reference (t : Tab) (c : Ctx) (x : String) (hx : x ≠ "$") (hl : x ∉ c.locals)
+    (ht : Key.ltype c.fn x ∉ t.keys) (hg : Key.glob x ∉ t.keys) (hb : Key.builtin x ∉ t.keys) :
+    resolve t c x = .globalGet (.glob x) :=
+  Goat.Resolve.forward_reference t c x hx hl ht hg hb
+
+/-- every case of `compile` that compiles a function body enters it through `enterFunc` (regenerated) -/
+theorem bodies_enter_through_enterFunc : Gen.enterFuncCases = ["function", "init", "lambda", "method"] := by decide
+
+example : Goat.Resolve.resolve (Goat.Resolve.step (Goat.Resolve.run Goat.Resolve.hist) (.compile "main.f" []))
+    { fn := "main.f", inScope := true, locals := ["acc"] } "acc" = .localGet "acc" := by decide
+
 end Goat.Props.C08
 
 #print axioms Goat.Props.C08.shadow_shifts
@@ -1168,3 +1210,8 @@ end Goat.Props.C08
 #print axioms Goat.Props.C08.end_rel
 #print axioms Goat.Props.C08.scope_refines
 #print axioms Goat.Props.C08.scope_refines_resolve
+#print axioms Goat.Props.C08.local_wins
+#print axioms Goat.Props.C08.local_wins_after_any_history
+#print axioms Goat.Props.C08.package_beats_builtin
+#print axioms Goat.Props.C08.forward_reference
+#print axioms Goat.Props.C08.bodies_enter_through_enterFunc
